@@ -128,6 +128,11 @@ def _shard_entry(args):
     mod = sys.modules.get(func_mod) or __import__(func_mod, fromlist=["x"])
     try:
         return getattr(mod, func_name)(payload)
+    except Exception as ex:  # pylint: disable=broad-except
+        import traceback
+        raise RuntimeError("worker failed on payload %r:\n%s" % (
+            payload[:4] if isinstance(payload, tuple) else payload,
+            traceback.format_exc())) from ex
     finally:
         faulthandler.cancel_dump_traceback_later()
 
